@@ -35,13 +35,25 @@ Record fobs := {
   o_inherit : list nat;                         (* Simplify()["inherit"] *)
   o_vars : list (nat * option val);             (* variable -> binding in a fresh instance (None: no such variable) *)
   o_keys : list (nat * option val);             (* keyword -> Simplify()["keywords"] entry *)
-  o_init : list (nat * bool);                   (* keyword -> (make-instance 'f keyword 1) accepted *)
+  (* (make-instance 'f k1 z1 k2 z2 ...) -> error, or the variables of the new instance and the plist :init received *)
+  o_makes : list (list (nat * Z) * option (list (nat * option val) * list (nat * Z)));
   o_tables : list (mid * list shape);
   o_sends : list (mid * option Z * out);
   o_bound : list (mid * out)
 }.
 Record case := { k_forms : list form; k_outs : list outcome; k_obs : list fobs }.
 
+Definition kz_eqb (a b : nat * Z) : bool := (fst a =? fst b) && Z.eqb (snd a) (snd b).
+(* an expected make-instance result against the observed one: same error / same plist, and every observed variable
+   holds its last assignment or else its default *)
+Definition make_ok (expected : option (list (nat * Z) * list (nat * Z))) (dflt : nat -> option val)
+           (observed : option (list (nat * option val) * list (nat * Z))) : bool :=
+  match expected, observed with
+  | None, None => true
+  | Some (u, p), Some (vals, p') =>
+      list_eqb kz_eqb p p' && forallb (fun vb => opt_eqb val_eqb (inst_value (dflt (fst vb)) (fst vb) u) (snd vb)) vals
+  | _, _ => false
+  end.
 (* a send outside the whopper guard may answer what the model says (the known finding) or what the
    specification says (the defect repaired): neither is an alarm *)
 Definition send_ok (ss : sstate) (f : nat) (m : mid) (arg : option Z) (model observed : out) : bool :=
@@ -55,7 +67,7 @@ Definition fobs_agree (ss : sstate) (st : state) (o : fobs) : bool :=
       list_eqb Nat.eqb (f_inherit fl) (o_inherit o) &&
       forallb (fun vb => opt_eqb val_eqb (lookup Nat.eqb (fst vb) (f_vars fl)) (snd vb)) (o_vars o) &&
       forallb (fun kb => opt_eqb val_eqb (lookup Nat.eqb (fst kb) (f_keys fl)) (snd kb)) (o_keys o) &&
-      forallb (fun kb => Bool.eqb (isSome (lookup Nat.eqb (fst kb) (f_keys fl))) (snd kb)) (o_init o) &&
+      forallb (fun mk => make_ok (make_instance st (o_f o) (fst mk)) (fun v => lookup Nat.eqb v (f_vars fl)) (snd mk)) (o_makes o) &&
       forallb (fun mt => list_eqb shape_eqb (map shape_of (table st (o_f o) (fst mt))) (snd mt)) (o_tables o) &&
       forallb (fun s => send_ok ss (o_f o) (fst (fst s)) (snd (fst s)) (send st (o_f o) (fst (fst s)) (snd (fst s))) (snd s)) (o_sends o) &&
       forallb (fun s => send_ok ss (o_f o) (fst s) None (bound_send fixed st (o_f o) (fst s)) (snd s)) (o_bound o)
@@ -75,7 +87,7 @@ Definition fobs_violates (ss : sstate) (o : fobs) : bool :=
   negb (list_eqb Nat.eqb (tl (fullprec ds f)) (o_inherit o)) ||
   existsb (fun vb => negb (opt_eqb val_eqb (s_var ds f (fst vb)) (snd vb))) (o_vars o) ||
   existsb (fun kb => negb (opt_eqb val_eqb (s_key ds f (fst kb)) (snd kb))) (o_keys o) ||
-  existsb (fun kb => negb (Bool.eqb (isSome (s_key ds f (fst kb))) (snd kb))) (o_init o) ||
+  existsb (fun mk => g_init ds f (fst mk) && negb (make_ok (s_make ds f (fst mk)) (s_var ds f) (snd mk))) (o_makes o) ||
   existsb (fun mt => negb (list_eqb shape_eqb (map shape_of (s_table ss f (fst mt))) (snd mt))) (o_tables o) ||
   existsb (fun s => let cs := s_table ss f (fst (fst s)) in
                     match cs with
@@ -117,5 +129,11 @@ Definition sends_in_guard (c : case) : N :=
 Definition sends_outside_guard (c : case) : N :=
   let '(ss, _) := s_history s_init (k_forms c) in
   N.of_nat (fold_left (fun n o => n + length (filter (fun s => negb (g_whop (s_table ss (o_f o) (fst (fst s))))) (o_sends o))) (k_obs c) 0).
+Definition makes_in_guard (c : case) : N :=
+  let '(ss, _) := s_history s_init (k_forms c) in
+  N.of_nat (fold_left (fun n o => n + length (filter (fun mk => g_init (ss_decls ss) (o_f o) (fst mk)) (o_makes o))) (k_obs c) 0).
+Definition makes_total (c : case) : N := N.of_nat (fold_left (fun n o => n + length (o_makes o)) (k_obs c) 0).
+Definition make_guard_count (cs : list case) : N := fold_left (fun a c => (a + makes_in_guard c)%N) cs 0%N.
+Definition make_count (cs : list case) : N := fold_left (fun a c => (a + makes_total c)%N) cs 0%N.
 Definition guard_count (cs : list case) : N := fold_left (fun a c => (a + sends_in_guard c)%N) cs 0%N.
 Definition outside_count (cs : list case) : N := fold_left (fun a c => (a + sends_outside_guard c)%N) cs 0%N.
